@@ -67,7 +67,9 @@ theorem lazy_default_values (cells : List (Nat × Nat × α)) (hs : RowSorted ce
     simp only [K0] at hne
     rw [hne] at h; simp only [fromSparse] at h; injection h with h; subst h
     rw [e]; simp [Rng.valAt, empty, lastAt]
-  · obtain ⟨_, _, her, _, _, _, hv⟩ := fromSparse_spec (K0 cells) hne r0 h
+  · have hsK0 : RowSorted (K0 cells) := List.Pairwise.filter _ hs
+    obtain ⟨_, _, her, _, _, _, hv⟩ := fromSparse_spec (K0 cells) hne r0 h
+      (fun c hc => ⟨sorted_head_le _ hne hsK0 c hc, sorted_le_last _ hne hsK0 c hc⟩)
     rw [hv p q]
     split
     · rfl
@@ -112,11 +114,12 @@ theorem lazy_window (cells : List (Nat × Nat × α)) (hs : RowSorted cells) (n 
   have key : ∀ (L : List (Nat × Nat × α)) (hne : L ≠ []), (L.head hne).1 = n →
       (L.getLast hne).1 = ((c :: rest).getLast (by simp)).1 →
       (∀ p q, (lastAt L p q).getD default = (lastAt (Kn cells n) p q).getD default) →
-      (∀ x ∈ L, n ≤ x.1) → fromSparse L = .ok r' →
+      (∀ x ∈ L, n ≤ x.1) → (∀ x ∈ L, x.1 ≤ (L.getLast hne).1) → fromSparse L = .ok r' →
       r'.inner.length ≠ 0 ∧ r'.sr = n ∧ (∀ c ∈ Kn cells n, c.1 ≤ r'.er) ∧ (∃ c ∈ Kn cells n, c.1 = r'.er) ∧
       ∀ p q, r'.valAt p q = if n ≤ p then (lastAt (K0 cells) p q).getD default else default := by
-    intro L hLne hhead hlast hlastAt hLge hfs
+    intro L hLne hhead hlast hlastAt hLge hLle hfs
     obtain ⟨hpos, hsr, her, _, _, _, hv⟩ := fromSparse_spec L hLne r' hfs
+      (fun x hx => ⟨by rw [hhead]; exact hLge x hx, hLle x hx⟩)
     refine ⟨hpos, by rw [hsr, hhead], ?_, ⟨_, hlastmem, by rw [her, hlast]⟩, ?_⟩
     · intro x hx; rw [her, hlast]; exact hmax' x hx
     · intro p q
@@ -139,17 +142,25 @@ theorem lazy_window (cells : List (Nat × Nat × α)) (hs : RowSorted cells) (n 
   simp only [windowLazy, keepLazy, hk'] at h
   by_cases hc : c.1 ≠ n
   · rw [if_pos hc] at h
-    refine key _ (by simp) (by simp) ?_ ?_ ?_ h
+    refine key _ (by simp) (by simp) ?_ ?_ ?_ ?_ h
     · rw [List.getLast_cons (by simp)]
     · intro p q; rw [hk]; exact lastAt_cons_default _ _ _ _ _
     · intro x hx
       rcases List.mem_cons.mp hx with rfl | hx'
       · simp
       · exact hge x (by rw [hk]; exact hx')
+    · intro x hx
+      rw [List.getLast_cons (by simp)]
+      rcases List.mem_cons.mp hx with rfl | hx'
+      · have h1 := hge c (by rw [hk]; exact List.mem_cons_self ..)
+        have h2 := hmax' c (by rw [hk]; exact List.mem_cons_self ..)
+        simp only; omega
+      · exact hmax' x (by rw [hk]; exact hx')
   · rw [if_neg hc] at h
-    refine key _ (by simp) (by simp only [List.head_cons]; omega) rfl ?_ ?_ h
+    refine key _ (by simp) (by simp only [List.head_cons]; omega) rfl ?_ ?_ ?_ h
     · intro p q; rw [hk]
     · intro x hx; exact hge x (by rw [hk]; exact hx)
+    · intro x hx; exact hmax' x (by rw [hk]; exact hx)
 
 /-- **hr_values (lazy)**: every position with row ≥ n holds the same value as under the default option,
     and no value from a row < n appears -/
